@@ -368,10 +368,33 @@ def run_live(ctx, cfg, script=None, record=True):
             out.append(wl_cache[key])
         return out
 
-    def do_write(who, data):
+    reuse = {}            # the caller's mutable buffer, written more than once
+
+    def do_write(who, data, form=None):
+        """write(data) with the payload handed over as bytes / bytearray / memoryview, or as the SAME
+        bytearray object that was written before; the caller's buffer must come back unchanged"""
+        if form is None:
+            form = rng.choice(["bytes", "bytearray", "memoryview", "again", "again"])
+        if form == "again" and reuse.get(who) is None:
+            form = "bytearray"
+        if form == "again":
+            obj = reuse[who]
+        elif form == "bytearray":
+            obj = bytearray(data)
+            if len(obj) <= 3000:
+                reuse[who] = obj
+        elif form == "memoryview":
+            obj = memoryview(bytearray(data))
+        else:
+            obj = bytes(data)
+        data = bytes(obj)
         k0 = len(L.link.wire_log[txdir[who]])
-        res = L.write(who, data)
-        ops.append(("w", who, len(data), bytes(data).hex() if len(data) <= 64 else None))
+        res = L.write(who, obj)
+        ops.append(("w", who, len(data), data.hex() if len(data) <= 64 else None, form))
+        if bytes(obj) != data:
+            viol("c01:caller-buffer-modified", "write() changed the caller's %s: %d bytes before, %d after"
+                 % (type(obj).__name__, len(data), len(bytes(obj))))
+            return
         letter = "A" if who == "client" else "B"
         fifo_ops.append("w%s:%s" % (letter, hx(data)))
         if res[0] != "ok":
@@ -570,6 +593,12 @@ def run_live(ctx, cfg, script=None, record=True):
                 who = rng.choice(["client", "server"])
                 cap = min(budget_for(ctx, cfg, who, pads[who]) // 8, 5000, limits[who] * 40)
                 do_write(who, rb(rng, rng.choice([0, 1, rng.randrange(0, cap + 1), limits[who], limits[who] + 1]) % (cap + 1)))
+            # the application re-uses one mutable buffer for several writes (fits one record)
+            who = rng.choice(["client", "server"])
+            n = rng.choice([1, 5, 16, 31, min(limits[who], 300)])
+            do_write(who, rb(rng, n), "bytearray")
+            do_write(who, b"", "again")
+            do_write(who, b"", "again")
             order = ["client", "server"]
             rng.shuffle(order)
             for who in order:
@@ -625,7 +654,7 @@ def run_live(ctx, cfg, script=None, record=True):
         for op in script:
             if op[0] == "w":
                 data = bytes.fromhex(op[3]) if op[3] is not None else rb(rng, op[2])
-                do_write(op[1], data)
+                do_write(op[1], data, op[4] if len(op) > 4 else "bytes")
             elif op[0] == "s":
                 set_size(op[1], op[2])
             elif op[0] == "ku":
